@@ -502,15 +502,36 @@ def wrapper(ctx, obs, rule='FWD'):
                     and o['crossval'].value == 1
                 obs.check(ok, 'FOLD', q, 'crossval is set exactly when a fold descriptor is in force',
                           f'crossval = {norm(b["crossval"])} without / {norm(o["crossval"])} with a cv descriptor', '', where(prog, f, g))
-    # distance = self_i + self_j - 2 cross
-    dist = [s for s in ast.walk(f.node) if isinstance(s, ast.Assign) and isinstance(s.value, ast.BinOp) and 'self_sim' in norm(s.value)
-            and 'row_idx' in norm(s.value)]
-    ok = False
-    for s in dist:
-        t = norm(s.value).replace(' ', '')
-        if t in ('row_idx@self_sim+col_idx@self_sim-2*rdm', 'col_idx@self_sim+row_idx@self_sim-2*rdm'):
-            ok = True
-    obs.check(ok, rule, q, 'distance = self_i + self_j - 2 * cross', f'{[norm(s)[:70] for s in dist]}', '', where(prog, f, f.node))
+    # distance = self_i + self_j - 2 cross (polynomial over row@self, col@self, cross)
+    ind = [s for s in ast.walk(f.node) if isinstance(s, ast.Assign) and isinstance(s.targets[0], ast.Tuple)
+           and isinstance(s.value, ast.Call) and _leaf(s.value.func) == 'row_col_indicator_rdm']
+    if ind and all(isinstance(t, ast.Name) for t in ind[0].targets[0].elts):
+        rn, cn = (t.id for t in ind[0].targets[0].elts)
+        cands = [s for s in ast.walk(f.node) if isinstance(s, ast.Assign) and isinstance(s.value, ast.BinOp)
+                 and any(isinstance(n, ast.Name) and n.id == rn for n in ast.walk(s.value))]
+
+        def leaf(e):
+            if isinstance(e, ast.BinOp) and isinstance(e.op, ast.MatMult) and isinstance(e.left, ast.Name) and e.left.id in (rn, cn) \
+                    and isinstance(e.right, ast.Name):
+                return poly.sym('SELF_' + ('r' if e.left.id == rn else 'c') + ':' + e.right.id)
+            if isinstance(e, ast.Name) and e.id not in (rn, cn):
+                return poly.sym('X:' + e.id)
+            return None
+        okd = None
+        for s2 in cands:
+            got = poly.from_expr(s2.value, leaf)
+            if got is None:
+                continue
+            selfs = sorted(m for m in got if len(m) == 1 and m[0].startswith('SELF_'))
+            xs = sorted(m for m in got if len(m) == 1 and m[0].startswith('X:'))
+            okd = (len(selfs) == 2 and len(xs) == 1 and all(got[m] == 1 for m in selfs) and got[xs[0]] == -2
+                   and selfs[0][0].split(':')[1] == selfs[1][0].split(':')[1] and len(got) == 3)
+            obs.check(okd, rule, q, 'distance = self_i + self_j - 2 * cross',
+                      f'`{norm(s2)[:80]}` == {poly.show(got)}: not row @ self + col @ self - 2 * cross', '', where(prog, f, s2))
+        if okd is None:
+            obs.unk(rule, q, 'distance = self_i + self_j - 2 * cross', 'combination of self and cross terms not recognised')
+    else:
+        obs.unk(rule, q, 'distance = self_i + self_j - 2 * cross', 'row_col_indicator_rdm unpacking not found')
     rc = [s for s in ast.walk(f.node) if isinstance(s, ast.Assign) and isinstance(s.value, ast.Call) and _leaf(s.value.func) == 'row_col_indicator_rdm']
     for s in rc:
         e = inl.inline(s.value.args[0])
@@ -520,7 +541,7 @@ def wrapper(ctx, obs, rule='FWD'):
     sl = {norm(s.targets[0]): norm(s.value).replace(' ', '') for s in ast.walk(f.node) if isinstance(s, ast.Assign)
           and isinstance(s.value, ast.Subscript) and isinstance(s.value.slice, ast.Slice)}
     ok = sl.get('self_sim', '').startswith('rdm[:len(') and any(v.startswith('rdm[len(') and v.endswith(':]') for v in sl.values())
-    obs.check(ok, rule, q, 'the first n entries are the self-similarities, the rest the condensed cross terms', f'{sl}', '',
+    obs.soft(ok, rule, q, 'the first n entries are the self-similarities, the rest the condensed cross terms', f'{sl}', '',
               where(prog, f, f.node))
     # labels: same unique_cond to _build_rdms
     for cr in calls_to(r, 'util.build_rdm._build_rdms'):
